@@ -218,4 +218,62 @@ theorem reverseJourney_no_exception {cx : Ctx} {pre : List Conn} {s : RState} (h
       rw [ho]
       simp
 
+
+/-- **no exception from the reconstruction of one stop of an arrival accessibility map** -/
+theorem reverseNode_no_exception {cx : Ctx} {pre : List Conn} {s : RState} (hI : RInv cx pre s)
+    (w : TimeWF cx pre) (hc : ChainWF cx pre) (hs : SliceOK cx pre) (hb : BetweenOK cx pre) (hu : UniqueSeq pre)
+    (hnn : ∀ c ∈ pre, 0 ≤ c.arr) (node : Nat) (what : String) :
+    reverseNode cx s node ≠ .exception what := by
+  unfold reverseNode
+  cases hsacc : s.acc node with
+  | none => simp
+  | some js =>
+    simp only
+    obtain ⟨res, hrec⟩ := reconLoop_first_terminates hI w hc js
+    obtain ⟨legs, lastStop⟩ := res
+    rw [hrec]
+    simp only
+    obtain ⟨e1, x1, hje, a2, a3, a4, a5⟩ := hI.acc node js hsacc
+    have hconn : js.hasConns = true := (hasConns_iff js).mpr ⟨e1, x1, hje, a2⟩
+    have hinit : RecInv cx pre s [] js none := by
+      refine ⟨trivial, rfl, ?_, fun h => absurd rfl h⟩
+      intro e he; rw [hje] at he; cases he; exact ⟨x1, a2, a3⟩
+    have hres := reconLoop_valid hI _ _ _ _ _ _ hinit (fun _ => hconn) hrec
+    obtain ⟨ll, el, xl, hl1, hl2, hl3, hl4, hl5, _, _⟩ := hres.fin
+    obtain ⟨el', xl', hel', hxl', hrl⟩ := hres.ok.isRide ll (List.mem_of_getLast? hl1)
+    rw [hl3] at hxl'; cases hxl'
+    have hx0 := hnn xl hrl.2.1
+    cases heg : lastStop.bind cx.nodesEgress with
+    | none =>
+      exfalso
+      rw [hl4] at heg
+      simp only [Option.bind_some] at heg
+      have := init_lab_untouched cx xl.arrStop heg
+      rw [this] at hl5
+      omega
+    | some eg =>
+      simp only
+      have hJ : JShape cx pre (legs ++ [{ walk := eg.time, dist := eg.dist }]) :=
+        ⟨[], legs, { walk := eg.time, dist := eg.dist }, by simp, (fun a ha => by cases ha), rfl, hres.ne, hres.ok⟩
+      obtain ⟨o, ho⟩ := optimizeJourney_terminates' w hs hb hu hJ
+      rw [ho]
+      simp only [hje]
+      split <;> simp
+
+theorem collectNodes_no_exception (f : Nat → Outcome (Option AccNode)) (hf : ∀ n what, f n ≠ .exception what) :
+    ∀ (l : List Nat) (acc : List AccNode) (what : String), collectNodes f l acc ≠ .exception what := by
+  intro l
+  induction l with
+  | nil => intro acc what; simp [collectNodes]
+  | cons n ns ih =>
+    intro acc what
+    simp only [collectNodes]
+    cases hfn : f n with
+    | ok o =>
+      cases o with
+      | none => exact ih _ _
+      | some a => exact ih _ _
+    | noRouting r => simp
+    | exception w' => exact absurd hfn (hf n w')
+
 end Tr
